@@ -58,6 +58,7 @@ type gm struct {
 	deadIDs []uint32          // internal ids of deleted datasets
 	tokens  map[string]int    // job-token objects stored (crash rig)
 	maxBatch int              // cap on generated batch size (0 = 14)
+	pubNS    map[*kit.MDataset][]string // public namespaces last set for a dataset incarnation (C19)
 }
 
 func newGM(t *rapid.T, names []string, gen kit.GenCfg) *gm {
